@@ -104,6 +104,18 @@ def launch(entry, argv, cwd, env=None, stdin_text=None, timeout=150, logfile=Non
     return rc, out[-3000:]
 
 
+def utag(tag):
+    """scratch / Coq-cases tag unique to this process: several checks (or two runs of the same
+    check) may be running at the same time in the same /verif/_work"""
+    return "%s_p%d" % (tag, os.getpid())
+
+
+def sweep():
+    """remove every scratch directory this process created under a utag"""
+    for d in glob.glob(os.path.join(common.WORK, "*_p%d*" % os.getpid())):
+        shutil.rmtree(d, ignore_errors=True)
+
+
 def pmap(fn, items, workers=None):
     with ThreadPoolExecutor(max_workers=workers or common.NCPU) as ex:
         return list(ex.map(fn, items))
@@ -665,12 +677,13 @@ def exit_code_cases(rng, n):
     return items
 
 
-def check_exit_codes(ck, items, tag="C05_e2e"):
+def check_exit_codes(ck, items, tag=None):
     """Runs the items; reports to ck.  VIOLATION: the process exit code is not
     the StudyStatus value (0 FINISHED / 2 FAILURE / 3 CANCELLED) of the verdict
     that the run's own status rows / the trace monitor (family 5 and the rest)
     give; mismatch: the Exec model's trace or verdict differs.  Returns the
     per-item summaries; puts a histogram under ck.cov['e2e_exit_codes']."""
+    tag = tag or utag("C05_e2e")
     work = os.path.join(common.WORK, tag + "_runs")
     shutil.rmtree(work, ignore_errors=True)
     for i, it in enumerate(items):
@@ -680,6 +693,7 @@ def check_exit_codes(ck, items, tag="C05_e2e"):
     summ = evaluate(ck, tag, loc) if loc else []
     summ += evaluate_scripted(ck, tag + "_sched", scr, pidnum=5) if scr else []
     shutil.rmtree(work, ignore_errors=True)
+    sweep()
     ck.cov["e2e_exit_codes"] = distribution(summ)
     for r in summ:
         ck.count("e2e:" + case_key(r["case"], r["mode"]), nontrivial=r["attempts_run"] > 0 or r["mode"] == "precancel")
@@ -1039,13 +1053,14 @@ def check_config(ck, items, pidnum):
     """Runs the items through `maestro run -fg -y -t T -a A -r R` with the scripted
     scheduler; inside Coq `both_ok pidnum` with cfg from the command-line values;
     reports to ck; fills ck.cov['e2e_config']."""
-    tag = "C%02d_cfg" % pidnum
+    tag = utag("C%02d_cfg" % pidnum)
     work = os.path.join(common.WORK, tag + "_runs")
     shutil.rmtree(work, ignore_errors=True)
     for i, it in enumerate(items):
         it["dir"] = os.path.join(work, "c%d" % i)
     summ = evaluate_scripted(ck, tag, items, pidnum=pidnum, clause=config_clause)
     shutil.rmtree(work, ignore_errors=True)
+    sweep()
     dist = Counter()
     for r in summ:
         c = r["case"]
@@ -1064,3 +1079,224 @@ def check_config(ck, items, pidnum):
                  nontrivial=r["attempts_run"] >= 2)
     ck.cov["e2e_config"] = dict(sorted(dist.items()))
     return summ
+
+
+# ----------------------------------------------------------------------------
+# C05 / C07: the `maestro cancel` command line on SEVERAL running studies
+# ----------------------------------------------------------------------------
+def gen_cancel_study(rng, gate_at):
+    nroot = rng.randint(1, 3)
+    names = rng.sample(NAMES, nroot + rng.randint(1, 2))
+    steps = []
+    for i, nm in enumerate(names):
+        root = i < nroot
+        steps.append({"name": nm, "deps": [] if root else [rng.choice(names[:nroot])], "scheduled": True,
+                      "restart": rng.random() < 0.3, "cancel": False, "submit": [True] * 6,
+                      "reports": ["RUNNING"] * (gate_at + 3) + ["FINISHED"] if root else ["RUNNING", "FINISHED"]})
+    return {"kind": "scripted", "shape": "roots:%d" % nroot, "scenario": "cancel-cli", "steps": steps, "params": [],
+            "attempts": 1, "throttle": 0, "rlimit": 1, "qcodes": ["OK"], "cancel": "cli", "after_cancel": "CANCELLED"}
+
+
+def cancel_cli_cases(rng, n):
+    """n scenarios: K studies whose conductors are running (scripted scheduler, jobs
+    RUNNING), ONE `maestro cancel` invocation.  kinds: several directories named (all /
+    all but one, any order), a single directory, a non-existent directory among real ones
+    or alone, the confirmation declined."""
+    out = []
+    kinds = ["multi", "multi-last-unnamed", "single", "missing-mixed", "multi", "declined", "missing-only", "multi-first-unnamed"]
+    for i in range(n):
+        kind = kinds[i % len(kinds)]
+        k = rng.choice([2, 3]) if kind != "multi" else rng.choice([2, 3, 3])
+        gate_at = rng.choice([1, 2])
+        studies = [gen_cancel_study(rng, gate_at) for _ in range(k)]
+        idx = list(range(k))
+        if kind == "multi":
+            named = idx[:]
+            rng.shuffle(named)
+        elif kind == "multi-last-unnamed":
+            named = idx[:-1] if k > 2 else idx[:1]
+        elif kind == "multi-first-unnamed":
+            named = idx[1:]
+        elif kind == "single":
+            named = [rng.choice(idx)]
+        elif kind == "missing-mixed":
+            named = idx[:-1]
+        elif kind == "declined":
+            named = idx[:]
+        else:
+            named = []
+        missing = {"missing-mixed": rng.choice(["first", "last", "middle"]), "missing-only": "only"}.get(kind)
+        out.append({"kind": kind, "studies": studies, "named": named, "missing": missing, "gate_at": gate_at,
+                    "answer": "n" if kind == "declined" else rng.choice(["y", "yes"])})
+    return out
+
+
+def run_cancel_scenario(job):
+    sc, d = job
+    shutil.rmtree(d, ignore_errors=True)
+    os.makedirs(d)
+    gate = os.path.join(d, "gate.open")
+    procs, sdirs = [], []
+    res = {"studies": [], "cancel": None}
+    for i, case in enumerate(sc["studies"]):
+        sd = os.path.join(d, "s%d" % i)
+        os.makedirs(sd)
+        sdirs.append(sd)
+        text, script = scripted_spec(case, sd)
+        script["after_cancel"] = case.get("after_cancel")
+        with open(os.path.join(sd, "spec.yaml"), "w") as f:
+            f.write(text)
+        with open(os.path.join(sd, "script.json"), "w") as f:
+            json.dump(script, f)
+        out = os.path.join(sd, "out")
+        rc0, tail0 = launch("maestro", ["run", "-n", "-s", POLL_SLEEP, "--attempts", case["attempts"], "--rlimit", case["rlimit"],
+                                        "--throttle", case["throttle"], "-o", out, "spec.yaml"], sd,
+                            {"E2E_SCRIPTED": os.path.join(sd, "script.json")}, logfile=os.path.join(sd, "run.log"))
+        env = base_env({"E2E_MARK_LOG": os.path.join(sd, "marks.log"), "E2E_POLL_SLEEP": str(POLL_SLEEP), "E2E_STUDY_DIR": out,
+                        "E2E_SNAP_DIR": os.path.join(sd, "snap"), "E2E_MAX_POLLS": "60",
+                        "E2E_SCRIPTED": os.path.join(sd, "script.json"), "E2E_GATE": gate,
+                        "E2E_GATE_AT": str(sc["gate_at"]), "E2E_GATE_REACHED": os.path.join(sd, "reached")})
+        p = None
+        if rc0 == 0:
+            p = subprocess.Popen([PY, LAUNCHER, "conductor", "-t", str(POLL_SLEEP), out], cwd=sd, env=env,
+                                 stdout=open(os.path.join(sd, "conductor.log"), "w"), stderr=subprocess.STDOUT)
+        procs.append(p)
+        res["studies"].append({"store_rc": rc0, "store_tail": tail0[-300:]})
+    import time
+    t0 = time.time()
+    while time.time() - t0 < 90:
+        if all(p is None or p.poll() is not None or os.path.exists(os.path.join(sd, "reached")) for p, sd in zip(procs, sdirs)):
+            break
+        time.sleep(0.05)
+    res["all_reached_gate"] = all(os.path.exists(os.path.join(sd, "reached")) for sd in sdirs)
+    # ONE invocation of the real command line
+    ghost = os.path.join(d, "no-such-study")
+    args = [os.path.join(sdirs[i], "out") for i in sc["named"]]
+    if sc["missing"] == "first" or sc["missing"] == "only":
+        args = [ghost] + args
+    elif sc["missing"] == "last":
+        args = args + [ghost]
+    elif sc["missing"] == "middle":
+        args = args[:1] + [ghost] + args[1:]
+    rc, out_text = launch("maestro", ["cancel"] + args, d, {}, stdin_text=sc["answer"] + "\n", logfile=os.path.join(d, "cancel.log"))
+    res["cancel"] = {"rc": rc, "out": out_text[-1500:], "argv": [os.path.relpath(a, d) for a in args],
+                     "locks": [os.path.exists(os.path.join(sd, "out", ".cancel.lock")) for sd in sdirs],
+                     "ghost_created": os.path.exists(ghost)}
+    with open(gate, "w") as f:
+        f.write("open\n")
+    for p, st, sd in zip(procs, res["studies"], sdirs):
+        if p is None:
+            st["rc"] = st["store_rc"]
+            continue
+        try:
+            st["rc"] = p.wait(timeout=120)
+        except subprocess.TimeoutExpired:
+            p.kill()
+            st["rc"] = 124
+        try:
+            st["tail"] = open(os.path.join(sd, "conductor.log")).read()[-800:]
+        except OSError:
+            st["tail"] = ""
+    return res
+
+
+def check_cancel_cli(ck, items=None, pidnum=7, n=None):
+    """`maestro cancel dirA dirB ...` against running conductors.  VIOLATION when, on the
+    implementation's own observables: a study named in an acknowledged cancel command gets no
+    cancel request (no .cancel.lock right after the command; no cancel_jobs call with its live
+    jobs; something submitted afterwards; exit code not 3), a study NOT named (or a declined
+    confirmation) is disturbed, the command's exit code is not 0 (1 with a missing directory),
+    it prints a traceback or creates the missing directory.  Inside Coq: ExecCases.both_ok
+    pidnum on every study's full adapter-call trace."""
+    if items is None:
+        items = cancel_cli_cases(random.Random(ck.seed * 613 + pidnum), n or (8 if ck.tier != "thorough" else 64))
+    tag = utag("C%02d_cancelcli" % pidnum)
+    work = os.path.join(common.WORK, tag + "_runs")
+    shutil.rmtree(work, ignore_errors=True)
+    jobs = [(sc, os.path.join(work, "k%d" % i)) for i, sc in enumerate(items)]
+    results = pmap(run_cancel_scenario, jobs, workers=4)
+    lits, recs = [], []
+    dist = Counter()
+    for (sc, d), res in zip(jobs, results):
+        viol, prob = [], []
+        replay = {"scenario": {k: sc[k] for k in ("kind", "studies", "named", "missing", "gate_at", "answer")},
+                  "cancel_command": res["cancel"], "exit_codes": [s.get("rc") for s in res["studies"]]}
+        dist["kind:" + sc["kind"]] += 1
+        dist["studies:%d" % len(sc["studies"])] += 1
+        dist["named:%d" % len(sc["named"])] += 1
+        if not res["all_reached_gate"]:
+            prob.append("a conductor did not reach the rendez-vous: %r" % [(s.get("store_rc"), s.get("rc")) for s in res["studies"]])
+        c = res["cancel"]
+        yes = sc["answer"] != "n"
+        want_rc = 1 if sc["missing"] else 0
+        if c["rc"] != want_rc:
+            viol.append("`maestro cancel %s` exited %r, expected %d; output: %s" % (" ".join(c["argv"]), c["rc"], want_rc, c["out"][-300:]))
+        if "Traceback" in c["out"]:
+            viol.append("`maestro cancel` printed a traceback: %s" % c["out"][-300:])
+        if c["ghost_created"]:
+            viol.append("`maestro cancel` created the non-existent directory")
+        if sc["missing"] and "not found" not in c["out"]:
+            viol.append("`maestro cancel` gave no diagnostic for the missing directory: %s" % c["out"][-200:])
+        for i, (case, st) in enumerate(zip(sc["studies"], res["studies"])):
+            named = i in sc["named"] and yes
+            sd = os.path.join(d, "s%d" % i)
+            if c["locks"][i] != named:
+                viol.append("study s%d %s in `maestro cancel %s` (answer %r) but %s" % (
+                    i, "IS named" if i in sc["named"] else "is NOT named", " ".join(c["argv"]), sc["answer"],
+                    "no cancel request was written into it" if named else "a cancel request was written into it"))
+            cur_job_node.clear()
+            try:
+                ecase, pr = translate_scripted(case, sd, {"rc": st.get("rc"), "tail": st.get("tail", ""), "mode": "conductor"})
+            except Exception as e:
+                ecase, pr = None, ["harness could not interpret study s%d: %r" % (i, e)]
+            prob += ["s%d: %s" % (i, x) for x in pr]
+            if ecase is None:
+                continue
+            calls = [(k, e) for k, p in enumerate(ecase["polls"]) for e in p["events"]]
+            cancels = [k for k, e in calls if e[0] == "cancel"]
+            if named:
+                if not cancels:
+                    viol.append("study s%d was named in an acknowledged `maestro cancel` but its conductor never called cancel_jobs "
+                                "(final status %s, exit %r)" % (i, ecase["polls"][-1]["status"], st.get("rc")))
+                else:
+                    k0 = cancels[0]
+                    later = [e for k, e in calls if e[0] == "submit" and k >= k0]
+                    if later:
+                        viol.append("study s%d submitted %r after its cancel request" % (i, later[:2]))
+                    if st.get("rc") != 3:
+                        viol.append("study s%d was cancelled but its conductor exited %r, not 3" % (i, st.get("rc")))
+            else:
+                if cancels:
+                    viol.append("study s%d was not named (or the confirmation was declined) but its conductor cancelled its jobs" % i)
+                if st.get("rc") == 3:
+                    viol.append("study s%d was not named but ended CANCELLED" % i)
+            if H.representable(ecase) and not pr:
+                lits.append(H.g_case(ecase))
+                recs.append((replay, i, viol))
+            dist["exit:%s" % st.get("rc")] += 1
+        ck.count("cancelcli:" + json.dumps(replay["scenario"], sort_keys=True), nontrivial=len(sc["named"]) >= 1)
+        if viol:
+            ck.violation("maestro cancel (%s): %s" % (sc["kind"], viol[0]), dict(replay, all=viol[:6]))
+        elif prob:
+            ck.mismatch("maestro cancel (%s): %s" % (sc["kind"], prob[0]), replay, "")
+        shutil.rmtree(d, ignore_errors=True)
+    shutil.rmtree(work, ignore_errors=True)
+    bad, errs = common.coq_failing(tag, H.HEADER, "ecase", "both_ok %d" % pidnum, lits)
+    for e in errs:
+        ck.mismatch("coqc failed on the cancel-cli cases file", None, e[1])
+    if bad:
+        sub = [lits[i] for i in bad]
+        b_impl, _ = common.coq_failing(tag + "_i", H.HEADER, "ecase", "impl_ok %d" % pidnum, sub)
+        for k, i in enumerate(bad):
+            replay, si, viol = recs[i]
+            if viol:
+                continue
+            if k in b_impl:
+                codes = common.coq_eval(tag + "_e", H.HEADER, "impl_viol (%s)" % lits[i])
+                ck.violation("maestro cancel: study s%d: monitor codes on the conductor's trace: %s" % (si, " ".join(codes.split())[-200:]), replay)
+            else:
+                mo = common.coq_eval(tag + "_e", H.HEADER, "model_obs (%s)" % lits[i])
+                ck.mismatch("maestro cancel: study s%d: model and implementation observations differ" % si, replay, mo[-2500:])
+    dist["model_compared"] = len(lits)
+    ck.cov["e2e_cancel_cli"] = dict(sorted(dist.items()))
+    sweep()
